@@ -305,6 +305,7 @@ def run(model, rep, tier):
     rep.check(bool(rets8) and len(good8) == len(rets8), "R-15.8", nc8.qualname, where(nc8, next((r for r in rets8 if r not in good8), nc8.node)), "every path returns Name([x.lower() for x in self.labels])",
               f"canonicalize has a return that is not `Name([x.lower() for x in self.labels])` (`{src(next((r for r in rets8 if r not in good8), nc8.node))[:50]}`): names that reach it unfolded make DS digests, "
               "NSEC3 hashes and signing input differ from the RFC values", stmt="canonicalize-folds")
+    rep.share(model, "C06", {"R-06.2"}, "R-15.7", "the NSEC chain and the ZONEMD record order are the canonical name order computed by Name.fullcompare")
     rep.share(model, "C07", {"R-07.3", "R-07.7"}, "R-15.7", "_make_rrsig_signature_data and compute_digest iterate rdatasets (hash-deduplicated); sign_zone adds NSEC records with txn.add (union into the stored rdataset)")
     from rules.common import mixed_presence_tests
     mixed_presence_tests(model, rep, "R-15.6", {"dns.dnssec"}, "a name-or-None marker of the zone signer",
